@@ -433,6 +433,8 @@ class VM:
             return cache[pp]
 
     def _const(self, o):
+        if o.get('static'):
+            return self._named_const(o['static'])
         ty = o.get('ty', '')
         if 'fn' in o:
             return Fn(o['fn'])
@@ -472,8 +474,11 @@ class VM:
             if name not in cache:
                 cache[name] = self.run(body, [])
             return cache[name]
+        return self._named_const(name, s, ty)
+
+    def _named_const(self, name, s='', ty=''):
         if self.facts.body(name) is not None:
-            # no MIR for plain consts in the facts: evaluate the (typed) HIR of the initialiser
+            # no MIR for plain consts / statics in the facts: evaluate the (typed) HIR of the initialiser
             from .peval import Evaluator, Unanalysable
             try:
                 v = Evaluator(self.facts).const_value(name)
@@ -1493,6 +1498,24 @@ class VM:
             return Iter([args[0]])
         if name in ('iter::empty', 'empty::empty', 'sources::empty'):
             return Iter([])
+        if (callee or '').startswith('phf::') and last in ('contains', 'contains_key', 'get', 'get_key', 'len', 'is_empty') and isinstance(a0, Struct):
+            m_ = a0.fields.get('map', a0)
+            m_ = d(m_)
+            ents = d(m_.fields['entries']) if isinstance(m_, Struct) and 'entries' in m_.fields else None
+            if ents is None:
+                raise Unsupported('phf container without literal entries')
+            pairs = [d(x) for x in ents.items]
+            keys = [d(p_[0]) for p_ in pairs]
+            if last in ('contains', 'contains_key'):
+                return d(args[1]) in keys
+            if last == 'len':
+                return len(keys)
+            if last == 'is_empty':
+                return not keys
+            k_ = d(args[1])
+            if k_ in keys:
+                return Some(pairs[keys.index(k_)][1] if last == 'get' else k_)
+            return NONE
         if name in ('RangeInclusive::new',):
             return Struct('RangeInclusive', {'start': d(args[0]), 'end': d(args[1])})
         if isinstance(a0, Struct) and a0.name in ('Range', 'RangeInclusive', 'RangeFrom', 'RangeTo', 'RangeToInclusive') and last in ('contains', 'start', 'end', 'is_empty', 'len', 'rev', 'next'):
@@ -1571,7 +1594,8 @@ class VM:
             import re
             tail = re.escape(trait_path.split('<')[0])
             rx = re.compile(r'^<&?(?:mut )?[\w:]*\b%s(?:<[^>]*>)? as %s(?:<.*>)?>::%s$' % (re.escape(type_name), tail, re.escape(method)))
-            found = [p for p in self.facts.mir if rx.match(p)]
+            rx2 = re.compile(r'^[\w:]*<impl(?:<[^>]*>)? %s(?:<.*>)? for &?(?:mut )?[\w:]*\b%s(?:<[^>]*>)?>::%s$' % (tail, re.escape(type_name), re.escape(method)))
+            found = [p for p in self.facts.mir if rx.match(p) or rx2.match(p)]
             cache[key] = found[0] if len(found) == 1 else None
         return cache[key]
 
